@@ -344,3 +344,46 @@ def all_printer_trees(tier):
 def select_trees(unit):
     trees = all_printer_trees(unit["tier"])
     return trees[unit["part"] :: unit["parts"]]
+
+
+# ------------------------------------------------------------------------------ replay
+
+
+def tree_from_repr(text):
+    """IR dataclass reprs are constructor expressions: rebuild the tree from the recorded repr."""
+    from tensora.ir import types as T
+
+    ns = {k: getattr(ir, k) for k in ir.__all__}
+    ns.update({"Integer": T.Integer, "Float": T.Float, "Boolean": T.Boolean, "Pointer": T.Pointer, "Array": T.Array})
+    return eval(text, {"__builtins__": {}}, ns)  # noqa: S307 - text written by this harness
+
+
+def replay_peephole(case):
+    """Re-evaluate one recorded C07(b) case twice; returns the findings of the second run."""
+    node = tree_from_repr(case["tree"])
+    outs = []
+    for _ in range(2):
+        stats, findings = Counter(), []
+        if isinstance(node, ir.Expression):
+            check_expression(node, expr_type(node), tx.INT_ENV_BIG, stats, findings,
+                             flt_env=tx.FLT_ENV + tx.FLT_ENV_INEXACT)
+        else:
+            check_statement(node, tx.INT_ENV, stats, findings)
+        outs.append([f["what"] for f in findings])
+    if outs[0] != outs[1]:
+        raise RuntimeError(f"replay diverged: {outs}")
+    return outs[1]
+
+
+def replay_printers(case):
+    """Re-run one recorded C06(b) tree through the printers, gcc and MCJIT."""
+    node = tree_from_repr(case["tree"])
+    kind = "e" if isinstance(node, ir.Expression) else "s"
+    _TREES["replay"] = [(kind, node, expr_type(node) if kind == "e" else None)]
+    outs = []
+    for k in range(2):
+        r = work_printers({"tier": "replay", "part": 0, "parts": 1, "tag": f"replay{k}"})
+        outs.append([f["what"] for f in r["findings"]])
+    if outs[0] != outs[1]:
+        raise RuntimeError(f"replay diverged: {outs}")
+    return outs[1]
